@@ -137,7 +137,7 @@ def dir_case(rnd, dirs, mode=1, prefill=0, export=0, root=None, prefill_kind="ra
     for ents, hl, xa, pa in dirs:
         cmds += dir_script(ents, hl, xa, pa)
     cmds += ["f", "w", "o"]
-    if export and root:
+    if export and root is not None:
         cmds += ["x %d %d" % root, "o"]
     meta = dict(mode=mode, prefill=prefill, export=export,
                 dirs=[[dict(name=e["name"].hex(), inum=e["inum"], iref=e["iref"], mode=e["mode"]) for e in ents]
@@ -207,6 +207,11 @@ def dir_cases(rnd, tier):
     # sparse export table (unset slots stay 0xFF..FF)
     ents = make_dir(rnd, 5, 4, start_num=10, breaks={2: ("num", 3000)})
     cases.append(dir_case(rnd, [(ents, 0, 0xFFFFFFFF, 3)], mode=1, export=1, root=(5000, 99)))
+    # root inode number 0 is refused by add_export_table_entry: the error is returned, nothing is written
+    ents = make_dir(rnd, 3, 4, start_num=1)
+    c = dir_case(rnd, [(ents, 0, 0xFFFFFFFF, 3)], mode=0, export=1, root=(0, 99))
+    c.meta["root"] = None
+    cases.append(c)
     nrand = 40 if tier == "quick" else 1200
     for _ in range(nrand):
         n = rnd.choice([0, 1, 2, 10, 60, 255, 256, 257, 400])
